@@ -118,6 +118,7 @@ pub fn since_t0_us(t: SystemTime) -> i128 {
 
 thread_local! {
     static LAST_PANIC: RefCell<Option<String>> = const { RefCell::new(None) };
+    static GUARD_DEPTH: std::cell::Cell<u32> = const { std::cell::Cell::new(0) };
 }
 
 /// Install a panic hook that records message + location in a thread local
@@ -136,7 +137,7 @@ pub fn install_quiet_panic_hook() {
             .map(|l| format!("{}:{}", l.file(), l.line()))
             .unwrap_or_else(|| "?".into());
         LAST_PANIC.with(|p| *p.borrow_mut() = Some(format!("{} @ {}", msg, loc)));
-        if std::env::var_os("VERIF_PANIC_VERBOSE").is_some() {
+        if GUARD_DEPTH.with(|d| d.get()) == 0 || std::env::var_os("VERIF_PANIC_VERBOSE").is_some() {
             eprintln!("panic: {} @ {}", msg, loc);
         }
     }));
@@ -186,7 +187,9 @@ impl PanicInfo {
 /// Run `f`, catching any panic (flute's, a dependency's or an oracle's).
 pub fn guarded<T>(f: impl FnOnce() -> T) -> Result<T, PanicInfo> {
     LAST_PANIC.with(|p| *p.borrow_mut() = None);
+    GUARD_DEPTH.with(|d| d.set(d.get() + 1));
     let r = catch_unwind(AssertUnwindSafe(f));
+    GUARD_DEPTH.with(|d| d.set(d.get() - 1));
     flute::verif::disarm();
     match r {
         Ok(v) => Ok(v),
